@@ -214,6 +214,18 @@ fn main() {
             check_case(l, cfg, &map, &setts, &|| format!("cfg={cfg:?}\nspec={}\n--- .osu ---\n{}", spec.describe(), spec.text()));
         });
     }
+    // the slowest timing (1 BPM): sliders last tens of seconds and carry hundreds of nested objects between two events
+    for cfg in MODE_CFGS.iter().filter(|c| c.src != 3) {
+        let alpha = Alphabet::product(&[Kind::Circle, Kind::Slider1, Kind::Slider2], &[1000, gen::END_REL + 1000], &[PosK::Far], &[0], &[0]);
+        let n_max = 2u32;
+        let setts = [Setting::nm(), Setting::bits(settings::HR | settings::DT)];
+        let name = format!("slowest-timing/{}to{}/N<=2", cfg.src, cfg.dst);
+        ctx.universe(&name, alpha.count_upto(n_max), |idx, l| {
+            let spec = MapSpec { timing: gen::Timing::T8, ..MapSpec::new(cfg.src, alpha.seq(idx, n_max)) };
+            let map = spec.decode();
+            check_case(l, *cfg, &map, &setts, &|| format!("cfg={cfg:?}\nspec={}\n--- .osu ---\n{}", spec.describe(), spec.text()));
+        });
+    }
     // one long object followed by a stream of 8 circles that either overlaps it in time or follows it
     for cfg in MODE_CFGS.iter().filter(|c| c.src != 3) {
         let kinds = [Kind::Slider5, Kind::SliderLong, Kind::Slider2, Kind::Spinner(600), Kind::Circle];
